@@ -32,7 +32,7 @@ PredictVerdict(c) ==
        ELSE IF \E t \in T : c.varG[t] # VarG(c.Z, c.u, c.d, c.b, t) THEN "var_G"
        ELSE IF \E t \in T : c.vara[t] # VarGenic(c.Z, c.u, t) THEN "var_a"
        ELSE IF \E t \in T : c.bulnan[t] # (VarGenic(c.Z, c.u, t) = 0) THEN "bulmer-undefined-exactly-when-genic-variance-is-zero"
-       ELSE IF \E t \in T : ~c.bulnan[t] /\ ~RatEq(c.bul[t], <<VarA(c.Z, c.u, c.b, t), VarGenic(c.Z, c.u, t)>>) THEN "bulmer"
+       ELSE IF c.bulon /\ \E t \in T : ~c.bulnan[t] /\ ~RatEq(c.bul[t], <<VarA(c.Z, c.u, c.b, t), VarGenic(c.Z, c.u, t)>>) THEN "bulmer"
        ELSE IF \E l \in L : \E t \in T : c.fa[l][t] # FaCount(c.Z, c.u, l, t) THEN "facount"
        ELSE IF \E l \in L : \E t \in T : c.da[l][t] # DaCount(c.Z, c.u, l, t) THEN "dacount"
        ELSE IF \E l \in L : \E t \in T : c.fafreq2n[l][t] # FaCount(c.Z, c.u, l, t) \/ c.dafreq2n[l][t] # DaCount(c.Z, c.u, l, t) THEN "fafreq-dafreq"
